@@ -45,13 +45,43 @@ def conf_dir(name: str) -> str:
 
 # ------------------------------------------------------------------------------------------------
 # E6: log-call elision
+def _inert(e) -> bool:
+    """Argument expressions whose evaluation cannot depend on the input text other than by rendering values:
+    constants, names, attributes, f-strings of those, LITERAL.format(...) and len/str/repr/pformat of those."""
+    if isinstance(e, (ast.Constant, ast.Name)):
+        return True
+    if isinstance(e, ast.Attribute):
+        return _inert(e.value)
+    if isinstance(e, ast.JoinedStr):
+        return all(_inert(v) for v in e.values)
+    if isinstance(e, ast.FormattedValue):
+        return _inert(e.value) and (e.format_spec is None or _inert(e.format_spec))
+    if isinstance(e, ast.BinOp) and isinstance(e.op, ast.Add):
+        return _inert(e.left) and _inert(e.right)
+    if isinstance(e, ast.BoolOp):
+        return all(_inert(v) for v in e.values)
+    if isinstance(e, ast.Call) and isinstance(e.func, ast.Name) and e.func.id in ("len", "str", "repr", "pformat") and not e.keywords:
+        return all(_inert(a) for a in e.args)       # renderings of values
+    if isinstance(e, ast.Call) and isinstance(e.func, ast.Attribute) and e.func.attr == "format" and isinstance(e.func.value, ast.Constant) \
+            and isinstance(e.func.value.value, str):
+        return all(_inert(a) for a in e.args) and all(_inert(k.value) for k in e.keywords)
+    return False
+
+
 class _Elide(ast.NodeTransformer):
+    """a statement-level log call is dropped; unless its arguments are inert (see _inert) they are still evaluated,
+    so that an exception raised while building the message (e.g. text.format(...) on input text) is not hidden."""
+
     def visit_Expr(self, node):
         v = node.value
         if isinstance(v, ast.Call):
             f = v.func
             if isinstance(f, ast.Name) and f.id in _LOG_NAMES:
-                return ast.copy_location(ast.Pass(), node)
+                args = list(v.args) + [k.value for k in v.keywords]
+                if all(_inert(a) for a in args):
+                    return ast.copy_location(ast.Pass(), node)
+                keep = ast.Expr(value=ast.Tuple(elts=[a for a in args if not _inert(a)], ctx=ast.Load()))
+                return ast.copy_location(keep, node)
         return node
 
 
@@ -236,6 +266,8 @@ def stub_path() -> None:
 
 _clearables = None
 _nmods = -1
+_snapshots = []
+_snap_ids = set()
 
 
 def clear_caches() -> None:
@@ -267,5 +299,18 @@ def clear_caches() -> None:
             if f is not None and hasattr(f, "cache_clear"):
                 found.append(f)
         _clearables = found
+        # module-level mutable containers of the library (hand-written memos, registries): their content as it is now
+        # (fresh after setup) is what every later path starts from
+        for modname, mod in list(sys.modules.items()):
+            if mod is None or not (modname.startswith("spil.") and not modname.startswith("spil.conf")):
+                continue
+            for k, v in list(vars(mod).items()):
+                if type(v) in (dict, list, set) and not k.startswith("__") and id(v) not in _snap_ids:
+                    _snap_ids.add(id(v))
+                    _snapshots.append((v, v.copy()))
     for f in _clearables:
         f.cache_clear()
+    for obj, was in _snapshots:
+        if obj != was:
+            obj.clear()
+            obj.extend(was) if type(obj) is list else obj.update(was)
